@@ -127,6 +127,21 @@ def run(ctx):
     ctx.extra["subscriber_cases"] = n
     for c in list(idx.values())[:1]:
         ctx.sample({"kind": "subscribers", "case": c["case"], "ref": [(e["chid"][-2:], e["ev"]) for e in c["ref"]][:25], "windows": [(s["name"], s["kind"], s["a"], s["b"], len(s["entries"])) for s in c["subs"]]})
+    # a subscriber that stays in one callback for a long (virtual) time while further events are applied: the others still get every event, in order
+    ss = ctx.path("slowsub.ndjson")
+    ctx.must_run_go(b, "TestSlowSubscriber", env={"VERIF_OUT": ss}, timeout=600)
+    nss, ssv = stages.judge(ctx, ss, module="EqualsJudge")
+    sidx = stages.index_obs(ss)
+    for v in ssv:
+        c = sidx[v["case"]]
+        if v["rule"] == "harness":
+            raise vlib.Inconclusive("TestSlowSubscriber: " + c["err"])
+        ctx.violation({"rule": v["rule"], "scenario": v["op"]}, "%s violated (%s): a subscriber registered after a slow one saw the events in another order than they were applied (%d positions differ)" % (
+            v["rule"], v["case"], c["left"]), detail=c)
+    for c in sidx.values():
+        ctx.traces += 1
+        ctx.evaluations += 1
+        ctx.distinct.add(("slowsub", c["case"]))
     if not ctx.quick():
         # the repository's own 275 tests, run with the trace hook: every transition they execute is judged
         stages.repo_suite_traces(ctx, ["C17."])
